@@ -123,6 +123,8 @@ func VerifE06ListUsers() {
 		_, verr := typesystem.NewAndValidate(context.Background(), m)
 		vt.Assert(verr == nil, "harness: the model is rejected by the model validation")
 	}
+	vtsem.StarSecondID = vt.ParamInt("starid", 0) == 1
+	vtsem.LowFirstID = vt.ParamInt("lowid", 0) == 1
 	u := vtsem.NewUniverse(m, vt.ParamInt("nobj", 2), vt.ParamInt("invalid", 1) == 1)
 	u.Restrict(vt.ParamInt("maxcands", 12), vt.ParamInt("seed", 0))
 	st := vtsem.NewSymbolicStore(u)
